@@ -86,6 +86,9 @@ class Gen:
             return mk_image(r.choice([None, "", "alt", 'a"<t', "  "]), r.choice(["image/png", "image/jpeg", None, "image/x-emf", "weird"]), src)
         if k < 0.91:
             return D.checkbox(r.random() < 0.5)
+        if k < 0.95 and depth < self.max_depth:
+            # a text box hosted in a run through w:object is read as block content INSIDE the run
+            return self.paragraph(depth + 1) if r.random() < 0.7 or not self.tables_on else self.table(depth + 1)
         return D.text(self.text())
 
     def run(self, depth):
